@@ -170,6 +170,11 @@ def closure_param_binding(consumer, decl, it, n_params):
     return None
 
 
+# closures handed to these are keys / predicates (pure functions of the item), not per-item effects
+PRED_CONSUMERS = {"filter", "find", "sorted_by_key", "sorted_unstable_by_key", "sorted_by", "skip_while", "take_while",
+                  "max_by_key", "min_by_key", "position", "any", "all", "sort_by_key", "sort_by", "retain", "with_context"}
+
+
 class Collector:
     """collects raw events (field writes and calls) of a root body, following crate-local
     helpers and closures, with parameters / captures substituted"""
@@ -195,7 +200,7 @@ class Collector:
             return fs
         return frozenset(self._sub(f, mapping, body) for f in fs)
 
-    def _collect(self, body, mapping, outer_facts, chain, depth, out, uncond, active):
+    def _collect(self, body, mapping, outer_facts, chain, depth, out, uncond, active, in_pred=False):
         if body.path in active:
             return
         active = active | {body.path}
@@ -209,7 +214,7 @@ class Collector:
                 if s["k"] == "assign" and s["lhs"]["proj"]:
                     loc = self._sub(body.expr_place(s["lhs"], site), mapping, body)
                     val = self._sub(body.expr_rvalue(s["rv"], site), mapping, body)
-                    ev = Ev("write", body, site, facts, chain, loc=loc, val=val, exp=s.get("exp", False))
+                    ev = Ev("write", body, site, facts, chain, loc=loc, val=val, exp=s.get("exp", False), in_pred=in_pred)
                     ev.uncond = un
                     out.append(ev)
                 continue
@@ -221,7 +226,7 @@ class Collector:
             rawargs = body.call_args(t, site)
             ev = Ev("call", body, site, facts, chain, callee=c, args=args, path=c.get("path", "?"),
                     name=c.get("name", ""), krate=c.get("krate", ""), exp=t.get("exp", False),
-                    dest=t["dest"], target=t["target"])
+                    dest=t["dest"], target=t["target"], in_pred=in_pred)
             ev.uncond = un
             out.append(ev)
             # closures handed to this call
@@ -248,7 +253,8 @@ class Collector:
                         for pi in range(2, cb.arg_count + 1):
                             cmap[("param", pi)] = ("cparam", cb.path, pi)
                     if depth < self.depth + 2:
-                        self._collect(cb, cmap, facts, chain + ((body, site),), depth + 1, out, False, active)
+                        self._collect(cb, cmap, facts, chain + ((body, site),), depth + 1, out, False, active,
+                                      in_pred or c.get("name", "") in PRED_CONSUMERS)
             # crate-local helper: inline
             if c.get("local") and c.get("kind") in ("Fn", "AssocFn"):
                 cb = self.F.bodies.get(c["path"])
@@ -258,7 +264,7 @@ class Collector:
                     self.lost.append((body, site, c["path"]))
                     continue
                 cmap = {("param", i + 1): a for i, a in enumerate(args)}
-                self._collect(cb, cmap, facts, chain + ((body, site),), depth + 1, out, un, active)
+                self._collect(cb, cmap, facts, chain + ((body, site),), depth + 1, out, un, active, in_pred)
 
 
 def classify(ev):
